@@ -206,9 +206,11 @@ Proof.
         try assumption; [apply W|].
       rewrite U. unfold set_body, set_flag. cbn [p_cmd p_seq p_flag p_typ p_node p_refers p_body].
       destruct (body_bytes (p_body p)); [cbn in HB; lia|reflexivity].
-    - destruct (marshal_empty enc dec zip unzip dec_enc enc_len unzip_zip zip_nonempty thr has_c p b fl M) as [-> E]; [lia|].
-      rewrite Hq. change (N.land (p_flag p) fMarshal) with (N.land (p_flag p) 3). rewrite Hc.
-      cbn [N.eqb negb]. rewrite E. destruct q; cbn in Hq; subst; reflexivity. }
+    - destruct (marshal_empty enc dec zip unzip dec_enc enc_len unzip_zip zip_nonempty thr has_c p b fl M) as [E0 E]; [lia|].
+      rewrite (ldiff_marshal_clean _ Hc) in E0.
+      rewrite Hq, E0. change (N.land (p_flag p) fMarshal) with (N.land (p_flag p) 3). rewrite Hc.
+      cbn [N.eqb negb]. rewrite E. destruct q as [c sq fg ty nd rf bd]. cbn [p_flag] in Hq.
+      cbn [p_cmd p_seq p_flag p_typ p_node p_refers p_body]. rewrite <- E0, <- Hq. reflexivity. }
   destruct (N.ltb_spec 0 (lenN refs)) as [Hr|Hr].
   - rewrite lenN_app, be32s_lenN.
     destruct (N.ltb_spec (4 * lenN refs + lenN b) (lenN refs * 4)) as [X|_]; [lia|].
